@@ -460,3 +460,41 @@ fn f13_refused_entry_after_append_keeps_old_entries() {
     ar.by_name("a").unwrap().read_to_string(&mut s).expect("old entry still reads");
     assert_eq!(s, "old content");
 }
+
+// F14 (C11): append to an archive whose last entry claims a header offset near u64::MAX (ZIP64 extra),
+// let the first I/O call of the next start_file fail, then call finish(): the back-patch of the
+// "open" entry computed header_start + 14 unchecked and panicked instead of returning an error.
+#[test]
+fn f14_finish_after_failed_start_in_append_mode_does_not_panic() {
+    let mut x = Vec::new();
+    x.extend_from_slice(&le16(1));
+    x.extend_from_slice(&le16(8));
+    x.extend_from_slice(&0xFFFF_FFFF_FFFF_FFF8u64.to_le_bytes()); // header offset
+    let mut z = mk_zip(&[E { name: b"a", flags: 0, method: 0, crc: 0, csize: 0, usize_: 0, extra: &[], data: b"" }]);
+    // patch the central record: offset field saturated + ZIP64 extra carrying the huge offset
+    let cd = z.windows(4).position(|w| w == [0x50, 0x4b, 0x01, 0x02]).unwrap();
+    let mut cdrec = z[cd..cd + 46 + 1].to_vec();
+    cdrec[30..32].copy_from_slice(&le16(x.len() as u16));
+    cdrec[42..46].copy_from_slice(&le32(0xFFFF_FFFF));
+    cdrec.extend_from_slice(&x);
+    let mut out = z[..cd].to_vec();
+    out.extend_from_slice(&cdrec);
+    let cd_size = cdrec.len() as u32;
+    out.extend_from_slice(&le32(0x06054b50));
+    out.extend_from_slice(&[0, 0, 0, 0]);
+    out.extend_from_slice(&le16(1));
+    out.extend_from_slice(&le16(1));
+    out.extend_from_slice(&le32(cd_size));
+    out.extend_from_slice(&le32(cd as u32));
+    out.extend_from_slice(&le16(0));
+    z = out;
+    // fail each seek in turn (one of them is the stream_position at the start of start_entry)
+    for k in 1..=12 {
+        let rw = RW { c: Cursor::new(z.clone()), seeks: 0, fail_seek: k };
+        let mut aw = match zip::ZipWriter::new_append(rw) { Ok(w) => w, Err(_) => continue };
+        let o = zip::write::FileOptions::default().compression_method(zip::CompressionMethod::Stored);
+        let _ = aw.start_file("b", o);
+        let _ = aw.finish(); // must return, not panic
+        std::mem::forget(aw);
+    }
+}
